@@ -14,6 +14,45 @@ import (
 func localDef(info *types.Info, body ast.Node, obj types.Object) ast.Expr {
 	var defs []ast.Expr
 	n := 0
+	inspect(body, func(nd ast.Node) bool {
+		switch s := nd.(type) {
+		case *ast.AssignStmt:
+			for i, l := range s.Lhs {
+				if prog.IdentObj(info, l) == obj {
+					n++
+					if len(s.Lhs) == len(s.Rhs) {
+						defs = append(defs, s.Rhs[i])
+					} else if len(s.Rhs) == 1 {
+						defs = append(defs, s.Rhs[0])
+					}
+				}
+			}
+		case *ast.ValueSpec:
+			for i, name := range s.Names {
+				if info.Defs[name] == obj {
+					n++
+					if i < len(s.Values) {
+						defs = append(defs, s.Values[i])
+					}
+				}
+			}
+		case *ast.IncDecStmt:
+			if prog.IdentObj(info, s.X) == obj {
+				n++
+			}
+		}
+		return true
+	})
+	if n == 1 && len(defs) == 1 {
+		return defs[0]
+	}
+	return nil
+}
+
+// localDefPlain is localDef without looking through helper calls.
+func localDefPlain(info *types.Info, body ast.Node, obj types.Object) ast.Expr {
+	var defs []ast.Expr
+	n := 0
 	ast.Inspect(body, func(nd ast.Node) bool {
 		switch s := nd.(type) {
 		case *ast.AssignStmt:
@@ -96,7 +135,7 @@ func (r *Run) returnsField(fi *prog.FuncInfo, field *types.Var) bool {
 		return false
 	}
 	ok, n := true, 0
-	ast.Inspect(fi.Decl.Body, func(nd ast.Node) bool {
+	inspect(fi.Decl.Body, func(nd ast.Node) bool {
 		if _, isLit := nd.(*ast.FuncLit); isLit {
 			return false
 		}
@@ -177,7 +216,7 @@ func indexLoopDirection(fs *ast.ForStmt) direction {
 // statement whose last result is the nil error, or — for iterator bodies — a yield call.
 func hasSuccessReturn(info *types.Info, body ast.Node) bool {
 	found := false
-	ast.Inspect(body, func(nd ast.Node) bool {
+	inspect(body, func(nd ast.Node) bool {
 		if _, isLit := nd.(*ast.FuncLit); isLit {
 			return false
 		}
@@ -195,7 +234,7 @@ func hasSuccessReturn(info *types.Info, body ast.Node) bool {
 // callsFuncValue reports whether body calls the function-typed variable obj (e.g. yield).
 func callsFuncValue(info *types.Info, body ast.Node, obj types.Object) bool {
 	found := false
-	ast.Inspect(body, func(nd ast.Node) bool {
+	inspect(body, func(nd ast.Node) bool {
 		if call, ok := nd.(*ast.CallExpr); ok {
 			if prog.IdentObj(info, call.Fun) == obj {
 				found = true
@@ -209,9 +248,15 @@ func callsFuncValue(info *types.Info, body ast.Node, obj types.Object) bool {
 // exprUsesField reports whether e mentions field f anywhere.
 func exprUsesField(info *types.Info, e ast.Node, f *types.Var) bool {
 	found := false
-	ast.Inspect(e, func(nd ast.Node) bool {
+	inspect(e, func(nd ast.Node) bool {
 		if sel, ok := nd.(*ast.SelectorExpr); ok {
 			if prog.SelField(info, sel) == f {
+				found = true
+			}
+		}
+		// a local that stands for a read of the field (x := o.f, defined once)
+		if id, ok := nd.(*ast.Ident); ok && prog.ResolveLocal != nil {
+			if _, isVar := info.Uses[id].(*types.Var); isVar && prog.SelField(info, id) == f {
 				found = true
 			}
 		}
@@ -223,7 +268,7 @@ func exprUsesField(info *types.Info, e ast.Node, f *types.Var) bool {
 // exprCalls reports whether e contains a call whose static callee is fn.
 func (r *Run) exprCalls(info *types.Info, e ast.Node, fn *types.Func) bool {
 	found := false
-	ast.Inspect(e, func(nd ast.Node) bool {
+	inspect(e, func(nd ast.Node) bool {
 		if call, ok := nd.(*ast.CallExpr); ok && r.P.CalleeFunc(info, call) == fn {
 			found = true
 		}
@@ -233,3 +278,100 @@ func (r *Run) exprCalls(info *types.Info, e ast.Node, fn *types.Func) bool {
 }
 
 func sscanInt(s string, v *int) (int, error) { return fmt.Sscanf(s, "%d", v) }
+
+// fullLoop describes a loop that visits every element of a slice exactly once, in either
+// spelling: `for i, x := range S` / `for _, x := range S` or `for i := 0; i < len(S); i++`
+// (also `i <= len(S)-1`, `i != len(S)`), where S satisfies isSrc directly or through a
+// local alias defined once from such an expression.
+type fullLoop struct {
+	Stmt ast.Stmt
+	Body *ast.BlockStmt
+	// IsElem reports whether e denotes the current element (the range value, or S[i]).
+	IsElem func(e ast.Expr) bool
+}
+
+func fullLoopsOver(info *types.Info, root ast.Node, isSrc func(e ast.Expr) bool) []fullLoop {
+	src := func(e ast.Expr) bool {
+		e = ast.Unparen(e)
+		if isSrc(e) {
+			return true
+		}
+		if id, ok := e.(*ast.Ident); ok {
+			if def := localDef(info, root, info.Uses[id]); def != nil && isSrc(ast.Unparen(def)) {
+				return true
+			}
+		}
+		return false
+	}
+	var out []fullLoop
+	inspect(root, func(nd ast.Node) bool {
+		switch lp := nd.(type) {
+		case *ast.RangeStmt:
+			if !src(lp.X) {
+				return true
+			}
+			var iv, vv types.Object
+			if lp.Key != nil {
+				iv = prog.IdentObj(info, lp.Key)
+			}
+			if lp.Value != nil {
+				vv = prog.IdentObj(info, lp.Value)
+			}
+			x := lp.X
+			out = append(out, fullLoop{Stmt: lp, Body: lp.Body, IsElem: func(e ast.Expr) bool {
+				e = ast.Unparen(e)
+				if vv != nil && prog.IdentObj(info, e) == vv {
+					return true
+				}
+				if ix, ok := e.(*ast.IndexExpr); ok && iv != nil && prog.IdentObj(info, ix.Index) == iv && types.ExprString(ast.Unparen(ix.X)) == types.ExprString(ast.Unparen(x)) {
+					return true
+				}
+				return false
+			}})
+		case *ast.ForStmt:
+			as, ok := lp.Init.(*ast.AssignStmt)
+			if !ok || len(as.Lhs) != 1 || len(as.Rhs) != 1 {
+				return true
+			}
+			iv := prog.IdentObj(info, as.Lhs[0])
+			if tv, ok := info.Types[as.Rhs[0]]; !ok || tv.Value == nil || tv.Value.String() != "0" || iv == nil {
+				return true
+			}
+			inc, ok := lp.Post.(*ast.IncDecStmt)
+			if !ok || inc.Tok != token.INC || prog.IdentObj(info, inc.X) != iv {
+				return true
+			}
+			b, ok := ast.Unparen(lp.Cond).(*ast.BinaryExpr)
+			if !ok || prog.IdentObj(info, b.X) != iv {
+				return true
+			}
+			// the bound: len(S) (with < or !=) or len(S)-1 (with <=)
+			var lenArg ast.Expr
+			bound := ast.Unparen(b.Y)
+			minusOne := false
+			if be, ok := bound.(*ast.BinaryExpr); ok && be.Op == token.SUB {
+				if tv, ok := info.Types[be.Y]; ok && tv.Value != nil && tv.Value.String() == "1" {
+					bound, minusOne = ast.Unparen(be.X), true
+				}
+			}
+			if c, ok := bound.(*ast.CallExpr); ok && len(c.Args) == 1 {
+				if id, ok := c.Fun.(*ast.Ident); ok && id.Name == "len" {
+					lenArg = c.Args[0]
+				}
+			}
+			if lenArg == nil || !src(lenArg) {
+				return true
+			}
+			if !((!minusOne && (b.Op == token.LSS || b.Op == token.NEQ)) || (minusOne && b.Op == token.LEQ)) {
+				return true
+			}
+			sx := types.ExprString(ast.Unparen(lenArg))
+			out = append(out, fullLoop{Stmt: lp, Body: lp.Body, IsElem: func(e ast.Expr) bool {
+				ix, ok := ast.Unparen(e).(*ast.IndexExpr)
+				return ok && prog.IdentObj(info, ix.Index) == iv && types.ExprString(ast.Unparen(ix.X)) == sx
+			}})
+		}
+		return true
+	})
+	return out
+}
